@@ -44,8 +44,13 @@ type Interp struct {
 	// without marking the path undecided.
 	Pure map[string]bool
 
+	// SymLoopLimit > 0 bounds how often a loop whose condition cannot be decided is entered on one
+	// path; after that only the exit edge is followed (each call site in the body is still seen).
+	SymLoopLimit int
+
 	paths int
 	cells int
+	loops map[*ssa.BasicBlock]map[*ssa.BasicBlock]bool
 }
 
 func New(prog *ssa.Program) *Interp {
@@ -56,12 +61,16 @@ type frame struct {
 	fn     *ssa.Function
 	env    map[ssa.Value]Value
 	visits map[*ssa.BasicBlock]int
+	symEnt map[*ssa.BasicBlock]int
 	depth  int
 	stop   map[*ssa.BasicBlock]bool // RunFrom: reaching one of these ends the path
 }
 
 func (fr *frame) clone() *frame {
-	n := &frame{fn: fr.fn, depth: fr.depth, stop: fr.stop, env: make(map[ssa.Value]Value, len(fr.env)), visits: make(map[*ssa.BasicBlock]int, len(fr.visits))}
+	n := &frame{fn: fr.fn, depth: fr.depth, stop: fr.stop, env: make(map[ssa.Value]Value, len(fr.env)), visits: make(map[*ssa.BasicBlock]int, len(fr.visits)), symEnt: make(map[*ssa.BasicBlock]int, len(fr.symEnt))}
+	for k, v := range fr.symEnt {
+		n.symEnt[k] = v
+	}
 	for k, v := range fr.env {
 		n.env[k] = v
 	}
@@ -319,11 +328,45 @@ func (in *Interp) branch(fr *frame, b *ssa.BasicBlock, cond Value, st *State, k 
 		}
 		return
 	}
+	// bounded entry into loops with undecidable conditions
+	exitEdge := -1
+	if fr.symEnt == nil {
+		fr.symEnt = map[*ssa.BasicBlock]int{}
+	}
+	if in.SymLoopLimit > 0 {
+		if loop := in.naturalLoop(b); loop != nil {
+			in0, in1 := loop[b.Succs[0]], loop[b.Succs[1]]
+			if in0 != in1 {
+				exitEdge = 0
+				if in0 {
+					exitEdge = 1
+				}
+				if fr.symEnt[b] >= in.SymLoopLimit {
+					if Assume(st, cond, exitEdge == 0) {
+						fr.symEnt[b] = 0 // leaving the loop: a later, fresh entry counts anew
+						in.block(fr, b.Succs[exitEdge], b, st, k)
+					}
+					return
+				}
+			}
+		}
+	}
 	stT := st.Clone()
 	if Assume(stT, cond, true) {
-		in.block(fr.clone(), b.Succs[0], b, stT, k)
+		frT := fr.clone()
+		if exitEdge == 0 {
+			frT.symEnt[b] = 0
+		} else if exitEdge == 1 {
+			frT.symEnt[b]++
+		}
+		in.block(frT, b.Succs[0], b, stT, k)
 	}
 	if Assume(st, cond, false) {
+		if exitEdge == 1 {
+			fr.symEnt[b] = 0
+		} else if exitEdge == 0 {
+			fr.symEnt[b]++
+		}
 		in.block(fr, b.Succs[1], b, st, k)
 	}
 }
@@ -856,4 +899,36 @@ func (o Outcome) PhiAtStop(phi *ssa.Phi) (Value, bool) {
 		}
 	}
 	return nil, false
+}
+
+// naturalLoop returns the blocks of the natural loop headed by b (nil if b is not a loop header).
+func (in *Interp) naturalLoop(b *ssa.BasicBlock) map[*ssa.BasicBlock]bool {
+	if in.loops == nil {
+		in.loops = map[*ssa.BasicBlock]map[*ssa.BasicBlock]bool{}
+	}
+	if l, ok := in.loops[b]; ok {
+		return l
+	}
+	var loop map[*ssa.BasicBlock]bool
+	for _, p := range b.Preds {
+		if !b.Dominates(p) {
+			continue
+		}
+		if loop == nil {
+			loop = map[*ssa.BasicBlock]bool{b: true}
+		}
+		var walk func(x *ssa.BasicBlock)
+		walk = func(x *ssa.BasicBlock) {
+			if loop[x] {
+				return
+			}
+			loop[x] = true
+			for _, q := range x.Preds {
+				walk(q)
+			}
+		}
+		walk(p)
+	}
+	in.loops[b] = loop
+	return loop
 }
